@@ -578,7 +578,9 @@ def write_replay(prop_id, failure, extra=None):
 def finding_matches(entry, prop_id, failure, classes):
     if entry.get('status') != 'known' or entry.get('property') != prop_id:
         return False
-    if entry.get('clause') != failure.clause or entry.get('site') != failure.site:
+    # the history phase re-evaluates sampled cases and tags what it finds: the same listed finding seen a second time is still that finding
+    clause = failure.clause.split(' [history phase:')[0]
+    if entry.get('clause') != clause or entry.get('site') != failure.site:
         return False
     pred = classes.get(entry.get('class'))
     try:
